@@ -85,7 +85,7 @@ def encode_eds(step, options):
     mode = {"": "VAuto", None: "VAuto", "auto": "VAuto", "manual": "VManual"}.get(options.get("default_mode"), "VOtherMode")
     sn = gC("MkEdsSnap", gZ(step["now"]), gO(e, P.g_eds), gL([P.g_ers(r) for r in by_kind(pre, "ExtendedDaemonSetReplicaSet")]),
             gL(nodes), gL([P.g_pod(p) for p in by_kind(pre, "Pod")]), mode, gB(bool(f.get("status"))), gB(bool(f.get("update"))),
-            gL([P.nm(n) for n in f.get("rs_delete") or []]))
+            gL([P.nm(n) for n in f.get("rs_delete") or []]), gB(bool(f.get("rs_create"))))
     writes = []
     for c in step["calls"]:
         if c["kind"] == "ExtendedDaemonSet" and c["verb"] == "update":
